@@ -258,7 +258,8 @@ fn run(c: &Case, out: &mut Out) {
                 // oracle: expectation
                 let cap = if max_flows == 0 { u32::MAX } else { max_flows };
                 let existing = live.contains_key(&key);
-                let admitted = existing || (live.len() as u32) < cap;
+                // larger than max_rx_datagram_size (1500): dropped before any flow is allocated
+                let admitted = payload.len() <= 1500 && (existing || (live.len() as u32) < cap);
                 // wait for the datagram at some backend
                 let deadline = Instant::now() + if admitted { RT } else { QUIET };
                 let mut hit: Option<(usize, Seen)> = None;
@@ -277,7 +278,7 @@ fn run(c: &Case, out: &mut Out) {
                 let mut obs = vec![ts("send"), tn(ci), tbool(admitted)];
                 match (&hit, admitted) {
                     (None, true) => out.viol("e2e-bounded", &format!("client {ci} ({me}): datagram of an admissible flow (live={} cap={cap}) never reached a backend", live.len())),
-                    (Some((bi, _)), false) => out.viol("e2e-bounded", &format!("client {ci}: forwarded to backend {bi} although the flow table is full (live={} cap={cap})", live.len())),
+                    (Some((bi, _)), false) => out.viol("e2e-bounded", &format!("client {ci}: {} bytes forwarded to backend {bi} although the datagram is oversized or the flow table is full (live={} cap={cap})", payload.len(), live.len())),
                     _ => {}
                 }
                 if let Some((bi, s)) = &hit {
@@ -339,6 +340,9 @@ fn run(c: &Case, out: &mut Out) {
                             out.viol("e2e-isolated", &format!("client {cj} received a datagram while client {ci} was talking (echo of its own earlier datagram: {mine})"));
                         }
                     }
+                }
+                if worker.as_ref().map_or(false, |w| w.job.is_finished()) {
+                    out.viol("e2e-worker-died", "the worker thread terminated (panic / failed assertion) while serving UDP traffic");
                 }
                 out.obs(&obs);
             }
